@@ -1,23 +1,545 @@
-"""Kernel translator (tie 1): scalar index-arithmetic functions of /repo -> Lean definitions.
-Stub: filled in with the kernels of tools/kernels.py."""
-import os
+"""Kernel translator (tie 1): scalar index-arithmetic functions of /repo -> Lean 4 definitions.
 
-HEADER = """import NpsVerif.Gen.Prelude
+Run on every check.  Reads the *text* of /repo's working tree with `ast` (nothing is imported), finds
+each function listed in tools/kernels.py and emits one Lean `def` per kernel into
+lean/NpsVerif/Gen/Cur.lean (namespace Gen.Cur).  The committed lean/NpsVerif/Gen/Ref.lean holds the
+output for the reference tree; lean/NpsVerif/Gen/Bridge/<kernel>.lean proves Cur.k = Ref.k on the
+kernel's reachable domain; all property theorems are proved about Ref.
+
+Accepted subset (anything else is a translator error naming file/line/construct -> broken obligation):
+  * assignments (incl. tuple unpacking of a literal tuple), augmented assignments |= += -=
+  * if / elif / else on scalar conditions; `x is None` / `x is not None` on Option-typed values
+  * early `return` / `raise` inside `if` (the rest of the block becomes the else branch)
+  * conditional expressions, assert (collected into `<kernel>_pre`), integer / bool / None constants
+  * + - * // %, unary -, comparisons, and/or/not, & | ~ on booleans
+  * np.minimum np.maximum np.abs np.sign np.where np.asanyarray(identity) np.ones_like(=1) int() abs()
+  * `self.__class__(a, b, c)` / declared constructor calls -> tuples; calls of other kernels
+Row projection: every per-row vector named in the kernel's `rowvars` becomes a scalar of one row (all
+operations on them in these functions are elementwise with scalar broadcasting).  Conventions (part
+of the trusted base, validated on an integer box against the real methods by
+tools/props/*: kernel validation):  `np.min(v)` of a row vector under a comparison `e >= np.min(v)`
+is translated per row (`e >= v`, the L layer takes the disjunction over rows); `len(v)` of a row
+vector in a boolean context is `true` (a row exists).
+"""
+import ast, os, re, textwrap
+
+INT, BOOL, OPT = "Int", "Bool", "Option Int"
+
+
+class Unsupported(Exception):
+    pass
+
+
+def _path(node):
+    if isinstance(node, ast.Name):
+        return node.id
+    if isinstance(node, ast.Attribute):
+        return _path(node.value) + "." + node.attr
+    raise Unsupported(f"expression {type(node).__name__} at line {getattr(node, 'lineno', '?')}")
+
+
+class Tr:
+    def __init__(self, spec, file):
+        self.spec = spec
+        self.file = file
+        self.rowvars = dict(spec.get("rowvars", {}))      # 'self.lengths' -> lean expr (Int)
+        self.calls = dict(spec.get("calls", {}))          # 'self._pos_col_slice' -> dict(kernel=..., args=[...])
+        self.ctor = spec.get("ctor", ["self.__class__"])   # callables translated to tuples
+        self.static = dict(spec.get("static", {}))        # source text of a test -> True/False (static branch resolution)
+        self.counter = {}
+        self.pre = []
+        self.can_raise = False
+        self.ret_type = None
+        self.path = []         # conditions of the enclosing control-flow ifs (for asserts / callee preconditions)
+        self.prefix = []       # let-lines of the straight-line path so far (asserts are only supported there)
+
+    def add_pre(self, cond):
+        guard = ("(!(" + " && ".join(self.path) + ") || " + cond + ")") if self.path else cond
+        self.pre.append("(" + "".join(l.strip() + "; " for l in self.prefix) + guard + ")")
+
+    def err(self, node, what):
+        raise Unsupported(f"{self.file}:{getattr(node, 'lineno', '?')}: {what}")
+
+    def fresh(self, base):
+        base = re.sub(r"[^A-Za-z0-9_]", "_", base)
+        n = self.counter.get(base, 0) + 1
+        self.counter[base] = n
+        return f"{base}{n}"
+
+    # ------------------------------------------------------------------ expressions
+    def expr(self, n, env):
+        if isinstance(n, ast.Constant):
+            if isinstance(n.value, bool):
+                return ("true" if n.value else "false", BOOL)
+            if isinstance(n.value, int):
+                return (f"({n.value} : Int)", INT)
+            if n.value is None:
+                return ("(none : Option Int)", OPT)
+            self.err(n, f"constant {n.value!r}")
+        if isinstance(n, (ast.Name, ast.Attribute)):
+            p = _path(n)
+            if p in env:
+                return env[p]
+            if p in self.rowvars:
+                return (self.rowvars[p], INT)
+            self.err(n, f"unknown name {p}")
+        if isinstance(n, ast.UnaryOp):
+            e, t = self.expr(n.operand, env)
+            if isinstance(n.op, ast.USub) and t == INT:
+                return (f"(-{e})", INT)
+            if isinstance(n.op, ast.UAdd) and t == INT:
+                return (e, INT)
+            if isinstance(n.op, (ast.Not, ast.Invert)) and t == BOOL:
+                return (f"(!{e})", BOOL)
+            self.err(n, "unary operator")
+        if isinstance(n, ast.BinOp):
+            a, ta = self.expr(n.left, env)
+            b, tb = self.expr(n.right, env)
+            if ta == tb == BOOL:
+                op = {ast.BitAnd: "&&", ast.BitOr: "||", ast.BitXor: "^^"}.get(type(n.op))
+                if op:
+                    return (f"({a} {op} {b})", BOOL)
+            if ta == tb == INT:
+                if isinstance(n.op, ast.FloorDiv):
+                    return (f"(Int.fdiv {a} {b})", INT)
+                if isinstance(n.op, ast.Mod):
+                    return (f"(Int.fmod {a} {b})", INT)
+                op = {ast.Add: "+", ast.Sub: "-", ast.Mult: "*"}.get(type(n.op))
+                if op:
+                    return (f"({a} {op} {b})", INT)
+            self.err(n, f"binary operator {type(n.op).__name__} on {ta}, {tb}")
+        if isinstance(n, ast.Compare):
+            if len(n.ops) != 1:
+                self.err(n, "chained comparison")
+            nt = self.none_test(n, env)
+            if nt is not None:
+                e, is_none = nt
+                return (f"({e}).isNone" if is_none else f"({e}).isSome", BOOL)
+            a, ta = self.expr(n.left, env)
+            b, tb = self.expr(n.comparators[0], env)
+            if ta != tb:
+                self.err(n, f"comparison of {ta} with {tb}")
+            op = {ast.Lt: "<", ast.LtE: "≤", ast.Gt: ">", ast.GtE: "≥", ast.Eq: "==", ast.NotEq: "!="}.get(type(n.ops[0]))
+            if op in ("==", "!="):
+                return (f"({a} {op} {b})", BOOL)
+            if op and ta == INT:
+                return (f"(decide ({a} {op} {b}))", BOOL)
+            self.err(n, "comparison")
+        if isinstance(n, ast.BoolOp):
+            parts = [self.as_bool(v, env) for v in n.values]
+            op = "&&" if isinstance(n.op, ast.And) else "||"
+            return ("(" + f" {op} ".join(parts) + ")", BOOL)
+        if isinstance(n, ast.IfExp) and self.is_none_test(n.test):
+            optexpr, is_none = self.none_test(n.test, env)
+            var = _safe_path(n.test.left)
+            inner = self.fresh((var or "v") + "_v")
+            env_some = dict(env)
+            if var is not None:
+                env_some[var] = (inner, INT)
+            nb, sb = (n.body, n.orelse) if is_none else (n.orelse, n.body)
+            a, ta = self.expr(nb, env)
+            b, tb = self.expr(sb, env_some)
+            if ta != tb:
+                self.err(n, "conditional expression with differently typed arms")
+            return (f"(match {optexpr} with | none => {a} | some {inner} => {b})", ta)
+        if isinstance(n, ast.IfExp):
+            c = self.as_bool(n.test, env)
+            a, ta = self.expr(n.body, env)
+            b, tb = self.expr(n.orelse, env)
+            if ta != tb:
+                self.err(n, "conditional expression with differently typed arms")
+            return (f"(if {c} then {a} else {b})", ta)
+        if isinstance(n, ast.Tuple):
+            parts = [self.expr(e, env) for e in n.elts]
+            return ("(" + ", ".join(p[0] for p in parts) + ")", " × ".join(p[1] for p in parts))
+        if isinstance(n, ast.Call):
+            return self.call(n, env)
+        self.err(n, f"expression {type(n).__name__}")
+
+    def as_bool(self, n, env):
+        # `len(rowvector)` in a boolean context: a row exists
+        if isinstance(n, ast.Call) and _safe_path(n.func) == "len" and len(n.args) == 1 and _safe_path(n.args[0]) in self.rowvars:
+            return "true"
+        e, t = self.expr(n, env)
+        if t != BOOL:
+            self.err(n, f"{t} used as a condition")
+        return e
+
+    def call(self, n, env):
+        f = _safe_path(n.func)
+        if f is None:
+            self.err(n, "call of a computed function")
+        if n.keywords:
+            self.err(n, f"keyword arguments in call of {f}")
+        if f in self.ctor:
+            parts = [self.expr(a, env) for a in n.args]
+            return ("(" + ", ".join(p[0] for p in parts) + ")", " × ".join(p[1] for p in parts))
+        if f in self.calls:
+            c = self.calls[f]
+            args = self.call_args(n, c, env)
+            self.add_pre(f"({c['kernel']}_pre {' '.join(args)})")
+            return (f"({c['kernel']} {' '.join(args)})", c["type"])
+        args = [self.expr(a, env) for a in n.args]
+        if f in ("np.minimum", "np.maximum", "min", "max") and len(args) == 2 and args[0][1] == args[1][1] == INT:
+            return (f"({'min' if 'min' in f else 'max'} {args[0][0]} {args[1][0]})", INT)
+        if f in ("np.abs", "abs") and len(args) == 1 and args[0][1] == INT:
+            return (f"(iabs {args[0][0]})", INT)
+        if f == "np.sign" and len(args) == 1 and args[0][1] == INT:
+            return (f"(sgn {args[0][0]})", INT)
+        if f == "np.where" and len(args) == 3 and args[0][1] == BOOL and args[1][1] == args[2][1]:
+            return (f"(if {args[0][0]} then {args[1][0]} else {args[2][0]})", args[1][1])
+        if f in ("np.asanyarray", "np.asarray", "int", "np.atleast_1d") and len(args) == 1 and args[0][1] == INT:
+            return args[0]
+        if f == "np.ones_like" and len(args) == 1:
+            return ("(1 : Int)", INT)
+        if f == "np.min" and len(args) == 1 and _safe_path(n.args[0]) in self.rowvars:
+            return args[0]   # row-projection convention, see module docstring
+        self.err(n, f"call of {f}")
+
+    def call_args(self, n, c, env):
+        """arguments of a call to another kernel: `c['args']` lists, per Lean parameter, either
+        ('row', leanexpr) | ('arg', i) | ('slice', i, field) for a `slice(a, b, c)` literal argument."""
+        out = []
+        for a in c["args"]:
+            if a[0] == "row":
+                out.append(self.rowvars[a[1]] if a[1] in self.rowvars else a[1])
+            elif a[0] == "arg":
+                out.append(self.expr(n.args[a[1]], env)[0])
+            elif a[0] == "slice":
+                arg = n.args[a[1]]
+                if isinstance(arg, ast.Call) and _safe_path(arg.func) == "slice" and len(arg.args) == 3:
+                    e, t = self.expr(arg.args[a[2]], env)
+                else:
+                    fld = ["start", "stop", "step"][a[2]]
+                    e, t = self.expr(ast.Attribute(value=arg, attr=fld, ctx=ast.Load(), lineno=arg.lineno), env)
+                want = a[3] if len(a) > 3 else None
+                if want == OPT and t == INT:
+                    e = f"(some {e})"
+                elif want == INT and t == OPT:
+                    self.err(n, "Option passed where Int expected")
+                out.append(e)
+        return out
+
+    def is_none_test(self, test):
+        return (isinstance(test, ast.Compare) and len(test.ops) == 1 and isinstance(test.ops[0], (ast.Is, ast.IsNot))
+                and isinstance(test.comparators[0], ast.Constant) and test.comparators[0].value is None)
+
+    def none_test(self, test, env):
+        if isinstance(test, ast.Compare) and len(test.ops) == 1 and isinstance(test.ops[0], (ast.Is, ast.IsNot)) \
+                and isinstance(test.comparators[0], ast.Constant) and test.comparators[0].value is None:
+            e, t = self.expr(test.left, env)
+            if t != OPT:
+                self.err(test, f"`is None` test on a value of type {t}")
+            return e, isinstance(test.ops[0], ast.Is)
+        return None
+
+    # ------------------------------------------------------------------ statements
+    def terminates(self, body):
+        """does this block always end in return / raise?"""
+        if not body:
+            return False
+        last = body[-1]
+        if isinstance(last, (ast.Return, ast.Raise)):
+            return True
+        if isinstance(last, ast.If):
+            return self.terminates(last.body) and self.terminates(last.orelse)
+        return False
+
+    def wrap_ret(self, e):
+        return f"(some {e})" if self.can_raise else e
+
+    def block(self, stmts, env, ind):
+        """translate a statement list that ends in return/raise into a Lean term"""
+        pad = "  " * ind
+        if not stmts:
+            raise Unsupported(f"{self.file}: block falls off its end without return")
+        st, rest = stmts[0], stmts[1:]
+        if isinstance(st, ast.Expr) and isinstance(st.value, ast.Constant):
+            return self.block(rest, env, ind)          # docstring
+        if isinstance(st, ast.Pass):
+            return self.block(rest, env, ind)
+        if isinstance(st, ast.Return):
+            e, t = self.expr(st.value, env)
+            if self.ret_type is None:
+                self.ret_type = t
+            elif self.ret_type != t:
+                self.err(st, f"return types differ: {self.ret_type} vs {t}")
+            return pad + self.wrap_ret(e)
+        if isinstance(st, ast.Raise):
+            if not self.can_raise:
+                self.err(st, "raise in a kernel not declared as refusing")
+            return pad + "none"
+        if isinstance(st, ast.Assert):
+            cond = self.as_bool(st.test, env)
+            self.add_pre(cond)
+            return self.block(rest, env, ind)
+        if isinstance(st, ast.Assign) and len(st.targets) == 1:
+            tgt = st.targets[0]
+            if isinstance(tgt, ast.Tuple):
+                if not isinstance(st.value, ast.Tuple) or len(st.value.elts) != len(tgt.elts):
+                    self.err(st, "tuple unpacking of a non-literal")
+                vals = [self.expr(v, env) for v in st.value.elts]
+                env = dict(env)
+                lines = []
+                for t, (e, ty) in zip(tgt.elts, vals):
+                    ln = self.fresh(_path(t))
+                    lines.append(f"{pad}let {ln} : {ty} := {e}")
+                    env[_path(t)] = (ln, ty)
+                self.prefix = self.prefix + lines
+                return "\n".join(lines) + "\n" + self.block(rest, env, ind)
+            e, ty = self.expr(st.value, env)
+            ln = self.fresh(_path(tgt))
+            env = dict(env)
+            env[_path(tgt)] = (ln, ty)
+            self.prefix = self.prefix + [f"let {ln} : {ty} := {e}"]
+            return f"{pad}let {ln} : {ty} := {e}\n" + self.block(rest, env, ind)
+        if isinstance(st, ast.AugAssign):
+            cur, tc = self.expr(st.target, env)
+            e, te = self.expr(st.value, env)
+            if tc == te == BOOL and isinstance(st.op, ast.BitOr):
+                new = f"({cur} || {e})"
+            elif tc == te == BOOL and isinstance(st.op, ast.BitAnd):
+                new = f"({cur} && {e})"
+            elif tc == te == INT and isinstance(st.op, (ast.Add, ast.Sub, ast.Mult)):
+                new = f"({cur} {'+' if isinstance(st.op, ast.Add) else '-' if isinstance(st.op, ast.Sub) else '*'} {e})"
+            else:
+                self.err(st, "augmented assignment")
+            ln = self.fresh(_path(st.target))
+            env = dict(env)
+            env[_path(st.target)] = (ln, tc)
+            self.prefix = self.prefix + [f"let {ln} : {tc} := {new}"]
+            return f"{pad}let {ln} : {tc} := {new}\n" + self.block(rest, env, ind)
+        if isinstance(st, ast.If):
+            return self.if_stmt(st, rest, env, ind)
+        self.err(st, f"statement {type(st).__name__}")
+
+    def if_stmt(self, st, rest, env, ind):
+        pad = "  " * ind
+        src = ast.unparse(st.test)
+        if src in self.static:                       # static branch resolution (e.g. isinstance tests)
+            taken = st.body if self.static[src] else st.orelse
+            return self.block(list(taken) + list(rest), env, ind)
+        body_term, else_term = self.terminates(st.body), self.terminates(st.orelse)
+        nt = self.none_test(st.test, env)
+        if body_term or else_term:
+            # control flow: the non-terminating arm continues with `rest`
+            b = list(st.body) + ([] if body_term else list(rest))
+            o = list(st.orelse) + ([] if else_term else list(rest))
+            if nt is not None:
+                optexpr, is_none = nt
+                var = _safe_path(st.test.left)
+                inner = self.fresh((var or "v") + "_v")
+                env_some = dict(env)
+                if var is not None:
+                    env_some[var] = (inner, INT)
+                none_b, some_b = (b, o) if is_none else (o, b)
+                return (f"{pad}match {optexpr} with\n{pad}| none =>\n" + self.block(none_b, env, ind + 2)
+                        + f"\n{pad}| some {inner} =>\n" + self.block(some_b, env_some, ind + 2))
+            c = self.as_bool(st.test, env)
+            saved_path, saved_prefix = self.path, self.prefix
+            self.path = saved_path + [c]
+            tb = self.block(b, env, ind + 1)
+            self.path, self.prefix = saved_path + [f"(!{c})"], saved_prefix
+            te = self.block(o, env, ind + 1)
+            self.path, self.prefix = saved_path, saved_prefix
+            return f"{pad}if {c} then\n" + tb + f"\n{pad}else\n" + te
+        # both arms only assign: merge the assigned variables
+        env2, lines = self.merge_if(st, env, ind)
+        self.prefix = self.prefix + lines
+        return "".join(l + "\n" for l in lines) + self.block(rest, env2, ind)
+
+    def branch_assigns(self, body, env):
+        """run an assign-only branch; returns {pyname: (inlined lean expr, type)} for names it (re)binds"""
+        out_env = dict(env)
+        local = {}     # lean let name -> expr (to inline)
+        for st in body:
+            if isinstance(st, ast.Pass) or (isinstance(st, ast.Expr) and isinstance(st.value, ast.Constant)):
+                continue
+            if isinstance(st, ast.Assign) and len(st.targets) == 1 and not isinstance(st.targets[0], ast.Tuple):
+                e, ty = self.expr(st.value, out_env)
+                out_env[_path(st.targets[0])] = (e, ty)
+            elif isinstance(st, ast.AugAssign):
+                cur, tc = self.expr(st.target, out_env)
+                e, te = self.expr(st.value, out_env)
+                if tc == te == BOOL and isinstance(st.op, ast.BitOr):
+                    new = f"({cur} || {e})"
+                elif tc == te == INT and isinstance(st.op, (ast.Add, ast.Sub)):
+                    new = f"({cur} {'+' if isinstance(st.op, ast.Add) else '-'} {e})"
+                else:
+                    self.err(st, "augmented assignment")
+                out_env[_path(st.target)] = (new, tc)
+            elif isinstance(st, ast.If):
+                out_env, lines = self.merge_if(st, out_env, 0, inline=True)
+            else:
+                self.err(st, f"statement {type(st).__name__} inside a value-merging if")
+        return {k: v for k, v in out_env.items() if env.get(k) != v}
+
+    def merge_if(self, st, env, ind, inline=False):
+        pad = "  " * ind
+        nt = self.none_test(st.test, env)
+        lines = []
+        env2 = dict(env)
+        if nt is not None:
+            optexpr, is_none = nt
+            var = _safe_path(st.test.left)
+            inner = self.fresh((var or "v") + "_v")
+            env_some = dict(env)
+            if var is not None:
+                env_some[var] = (inner, INT)
+            none_body, some_body = (st.body, st.orelse) if is_none else (st.orelse, st.body)
+            a = self.branch_assigns(none_body, env)
+            b = self.branch_assigns(some_body, env_some)
+            names = sorted(set(a) | set(b))
+            if var is not None and var not in names:
+                pass
+            for py in names:
+                ea = a.get(py, env.get(py))
+                eb = b.get(py, (inner, INT) if py == var else env.get(py))
+                if py == var and py not in b:
+                    eb = (inner, INT)
+                if ea is None or eb is None:
+                    self.err(st, f"variable {py} is defined in one branch only")
+                if ea[1] == OPT and py == var:
+                    self.err(st, f"{py} stays None in the None branch")
+                if ea[1] != eb[1]:
+                    self.err(st, f"variable {py} has type {ea[1]} in one branch and {eb[1]} in the other")
+                e = f"(match {optexpr} with | none => {ea[0]} | some {inner} => {eb[0]})"
+                if inline:
+                    env2[py] = (e, ea[1])
+                else:
+                    ln = self.fresh(py)
+                    lines.append(f"{pad}let {ln} : {ea[1]} := {e}")
+                    env2[py] = (ln, ea[1])
+            return env2, lines
+        c = self.as_bool(st.test, env)
+        a = self.branch_assigns(st.body, env)
+        b = self.branch_assigns(st.orelse, env)
+        for py in sorted(set(a) | set(b)):
+            ea = a.get(py, env.get(py))
+            eb = b.get(py, env.get(py))
+            if ea is None or eb is None:
+                self.err(st, f"variable {py} is defined in one branch only")
+            if ea[1] != eb[1]:
+                self.err(st, f"variable {py} has type {ea[1]} in one branch and {eb[1]} in the other")
+            e = f"(if {c} then {ea[0]} else {eb[0]})"
+            if inline:
+                env2[py] = (e, ea[1])
+            else:
+                ln = self.fresh(py)
+                lines.append(f"{pad}let {ln} : {ea[1]} := {e}")
+                env2[py] = (ln, ea[1])
+        return env2, lines
+
+
+def _safe_path(node):
+    try:
+        return _path(node)
+    except Unsupported:
+        return None
+
+
+def find_function(tree, qual):
+    parts = qual.split(".")
+    body = tree.body
+    node = None
+    for i, p in enumerate(parts):
+        node = None
+        for n in body:
+            if isinstance(n, (ast.ClassDef, ast.FunctionDef)) and n.name == p:
+                node = n
+        if node is None:
+            return None
+        body = node.body
+    return node if isinstance(node, ast.FunctionDef) else None
+
+
+def translate_kernel(repo, spec):
+    path = os.path.join(repo, spec["file"])
+    src = open(path).read()
+    tree = ast.parse(src)
+    fn = find_function(tree, spec["qual"])
+    if fn is None:
+        raise Unsupported(f"{spec['file']}: function {spec['qual']} not found")
+    tr = Tr(spec, spec["file"])
+    tr.can_raise = spec.get("can_raise", False)
+    env = {}
+    params = []
+    for lean_name, ty in spec.get("rowparams", []):
+        params.append(f"({lean_name} : {ty})")
+    for py, (lean_name, ty) in spec.get("params", {}).items():
+        env[py] = (lean_name, ty)
+        params.append(f"({lean_name} : {ty})")
+    body = list(fn.body)
+    if "prologue" in spec:   # python statements executed before the body (e.g. aliasing an argument)
+        body = ast.parse(textwrap.dedent(spec["prologue"])).body + body
+    term = tr.block(body, env, 1)
+    rt = tr.ret_type or "Int"
+    if tr.can_raise:
+        rt = f"Option ({rt})"
+    name = spec["name"]
+    text = f"/-- generated from `{spec['file']}` `{spec['qual']}`" + (f" ({spec['note']})" if spec.get("note") else "") + f" -/\ndef {name} {' '.join(params)} : {rt} :=\n{term}\n"
+    pre = " && ".join(tr.pre) if tr.pre else "true"
+    text += f"\n/-- the `assert` statements of `{spec['qual']}` -/\ndef {name}_pre {' '.join(params)} : Bool :=\n  {pre}\n"
+    return text
+
+
+HEADER = """import NpsVerif.Gen.Prelude{imp}
 /-! GENERATED by tools/translate.py from /repo's current source on every run. Do not edit. -/
-namespace Gen.Cur
+set_option linter.unusedVariables false
+namespace Gen.{ns}
 open Gen
 """
 
+
+def generate_text(repo, ns="Cur"):
+    import kernels
+    parts, errors = [], []
+    for spec in kernels.KERNELS:
+        try:
+            parts.append(translate_kernel(repo, spec))
+        except Unsupported as e:
+            errors.append({"kernel": spec["name"], "detail": str(e)})
+            # keep the library compiling: fall back to the reference definition for this kernel, so that
+            # other kernels/properties are unaffected; the broken obligation is reported by the check
+            parts.append(kernels.fallback(spec))
+        except SyntaxError as e:
+            errors.append({"kernel": spec["name"], "detail": f"{spec['file']}: syntax error {e}"})
+            parts.append(kernels.fallback(spec))
+    return HEADER.format(ns=ns, imp=('\nimport NpsVerif.Gen.Ref' if ns == 'Cur' else '')) + "\n".join(parts) + f"\nend Gen.{ns}\n", errors
+
+
 def regenerate(repo, lean_dir):
-    try:
-        import kernels
-        body, errors, changed = kernels.generate(repo, lean_dir)
-    except ImportError:
-        body, errors, changed = "", [], []
-    text = HEADER + body + "\nend Gen.Cur\n"
+    text, errors = generate_text(repo, "Cur")
     path = os.path.join(lean_dir, "NpsVerif", "Gen", "Cur.lean")
     old = open(path).read() if os.path.exists(path) else None
     if old != text:
         with open(path, "w") as f:
             f.write(text)
+    # which kernels differ textually from the committed reference?
+    ref_path = os.path.join(lean_dir, "NpsVerif", "Gen", "Ref.lean")
+    changed = []
+    if os.path.exists(ref_path):
+        ref = open(ref_path).read()
+        import kernels
+        for spec in kernels.KERNELS:
+            a = _def_text(text, spec["name"])
+            b = _def_text(ref, spec["name"])
+            if a != b:
+                changed.append(spec["name"])
     return {"errors": errors, "changed": changed}
+
+
+def _def_text(text, name):
+    m = re.search(rf"^def {re.escape(name)} .*?(?=^/--|^def |^end )", text, flags=re.S | re.M)
+    return m.group(0).strip() if m else None
+
+
+if __name__ == "__main__":
+    import sys
+    sys.path.insert(0, os.path.dirname(os.path.abspath(__file__)))
+    repo = sys.argv[1] if len(sys.argv) > 1 else "/repo"
+    ns = sys.argv[2] if len(sys.argv) > 2 else "Cur"
+    text, errors = generate_text(repo, ns)
+    print(text)
+    if errors:
+        print("ERRORS", errors, file=sys.stderr)
